@@ -140,7 +140,7 @@ func c16ConcJobDD(ids *c16IDs, obs []c16Obs, conc, dd int, seq []int) c16Job {
 			}
 			if served > conc {
 				jr.findings = append(jr.findings, c16Finding{"server-concurrent-requests-exceeded",
-					fmt.Sprintf("%d requests of one peer are being served at the same time (each got a DialDataRequest and has not finished), limit %d; events so far: %s", served, conc, strings.Join(sn[:i+1], ","))})
+					fmt.Sprintf("%d requests of one peer are being served at the same time (each was asked for dial data or is being dialled back, and has not finished), limit %d; events so far: %s", served, conc, strings.Join(sn[:i+1], ","))})
 				break
 			}
 		}
